@@ -280,6 +280,7 @@ pub fn local_scenario(r: &mut Rng) -> Scenario {
     }
     let qname = crate::streams::zone::query_name(r, &owners, &DomainName::root_domain());
     let qt: u16 = *r.pick(&[1u16, 1, 1, 28, 5, 2, 16, 255, 15, 6]);
+    #[allow(unused_mut)]
     let question = Question { name: qname.clone(), qtype: QueryType::from(qt), qclass: QueryClass::Record(RecordClass::IN) };
     // cache: records for the question name / owners, possibly conflicting with zone data
     let mut cache_rrs = Vec::new();
@@ -292,6 +293,17 @@ pub fn local_scenario(r: &mut Rng) -> Scenario {
         };
         cache_rrs.push(rr(&n, data, *r.pick(&[0u32, 30, 300])));
     }
+    let mut qname = qname;
+    let mut question = question;
+    if r.chance(1, 6) {
+        // an outside alias whose cached target lies in a local zone: the zone must still speak for it
+        let target = r.pick(&owners).clone();
+        qname = nm("alias.outside.test.");
+        question = Question { name: qname.clone(), qtype: QueryType::from(*r.pick(&[1u16, 1, 28, 16])), qclass: QueryClass::Record(RecordClass::IN) };
+        cache_rrs.push(rr(&qname, RecordTypeWithData::CNAME { cname: target.clone() }, 300));
+        cache_rrs.push(rr(&target, data_for(r, u16::from(question.qtype)), 300));
+    }
+    let qt = u16::from(question.qtype);
     let m = mode(r);
     // upstream: the forwarder (or any server) answers with foreign data for the question
     let mut script = Vec::new();
@@ -317,7 +329,10 @@ pub fn chain_scenario(r: &mut Rng) -> Scenario {
         _ => r.range(1, 8),
     };
     let cyc = r.chance(1, 5);
-    let names: Vec<DomainName> = (0..=len).map(|i| nm(&format!("n{i}.lan."))).collect();
+    let in_cache_from = if r.chance(1, 3) { r.below(len + 1) } else { usize::MAX };
+    let names: Vec<DomainName> = (0..=len)
+        .map(|i| if i >= in_cache_from { nm(&format!("n{i}.ext.")) } else { nm(&format!("n{i}.lan.")) })
+        .collect();
     let s = soa(r);
     let mut spec = format!("{}!{}", c::name(&nm("lan.")), soa_text(&s));
     let mut zone = Zone::new(nm("lan."), Some(s));
@@ -327,7 +342,6 @@ pub fn chain_scenario(r: &mut Rng) -> Scenario {
         1 => Mode::Rec(ProtocolMode::OnlyV4, 53),
         _ => Mode::Fwd(SocketAddr::new(IpAddr::V4(Ipv4Addr::new(192, 0, 2, 53)), 53)),
     };
-    let in_cache_from = if r.chance(1, 3) { r.below(len + 1) } else { usize::MAX };
     for i in 0..len {
         let target = if cyc && i + 1 == len { names[r.below(i + 1)].clone() } else { names[i + 1].clone() };
         let data = RecordTypeWithData::CNAME { cname: target };
@@ -340,7 +354,12 @@ pub fn chain_scenario(r: &mut Rng) -> Scenario {
             spec.push_str(&format!("!i:{}", c::rr(&x)));
         }
     }
-    if !cyc {
+    let mut script = Vec::new();
+    let tail_upstream = !cyc && len >= 2 && in_cache_from != usize::MAX && r.chance(1, 2);
+    if tail_upstream {
+        // the final record is neither local nor cached: it has to come from upstream, and the
+        // cached links must all stay in the answer, in order
+    } else if !cyc {
         let x = rr(&names[len], a4(7), 300);
         if len >= in_cache_from {
             cache_rrs.push(x);
@@ -356,7 +375,18 @@ pub fn chain_scenario(r: &mut Rng) -> Scenario {
         qtype: QueryType::from(*r.pick(&[1u16, 1, 1, 16, 5, 255])),
         qclass: QueryClass::Record(RecordClass::IN),
     };
-    Scenario { mode: m, zone_specs: vec![spec], zones, cache_rrs, script: Vec::new(), question, expect: None, family: "chain" }
+    let mut m = m;
+    if tail_upstream {
+        let fwd = SocketAddr::new(IpAddr::V4(Ipv4Addr::new(192, 0, 2, 53)), 53);
+        m = Mode::Fwd(fwd);
+        // only names outside the local zone can be forwarded: move the chain's cached tail outside
+        // (the cached part of the chain lives under ext. instead of lan.)
+        let tq = Question { name: names[len].clone(), qtype: question.qtype, qclass: question.qclass };
+        let mut reply = reply_to(&tq);
+        reply.answers.push(rr(&names[len], data_for(r, u16::from(question.qtype)), 60));
+        script.push(Entry { addr: fwd.ip(), tcp: false, qname: names[len].clone(), qtype: u16::from(question.qtype), delay_ms: 3, reply: Reply::Msg { m: reply, same_id: true } });
+    }
+    Scenario { mode: m, zone_specs: vec![spec], zones, cache_rrs, script, question, expect: None, family: "chain" }
 }
 
 // ---- universe: a delegation tree served by scripted authoritative servers ---------------------
@@ -594,6 +624,14 @@ fn gen_universe(r: &mut Rng, single_ns: bool, dual: bool) -> Universe {
                 1 => {
                     zones[i].zone.insert(&name, RecordTypeWithData::TXT { octets: bytes::Bytes::from_static(b"t") }, 300);
                 }
+                3 if r.chance(1, 2) => {
+                    // alias to a name that does not exist in another zone
+                    let tz = 1 + r.below(nzones - 1);
+                    let mut tl = vec![lbl(b"gone")];
+                    tl.extend(zones[tz].apex.labels.iter().cloned());
+                    let target = DomainName::from_labels(tl).unwrap();
+                    zones[i].zone.insert(&name, RecordTypeWithData::CNAME { cname: target }, 300);
+                }
                 _ => {
                     zones[i].zone.insert(&name, a4(r.below(200) as u8), 300);
                     if r.chance(1, 3) {
@@ -696,6 +734,7 @@ pub fn universe_scenario(r: &mut Rng, single_ns: bool, dual: bool) -> Scenario {
     let qs = relevant_questions(&u, &question);
     let script = universe_script(&u, &qs);
     let (hz, hspec) = hints_zone(&u);
+    #[allow(unused_assignments)]
     let mut zones = Zones::new();
     zones.insert_merge(hz);
     let pm = if dual {
@@ -703,7 +742,33 @@ pub fn universe_scenario(r: &mut Rng, single_ns: bool, dual: bool) -> Scenario {
     } else {
         ProtocolMode::OnlyV4
     };
-    let expect = u.expected(&question);
+    let mut expect = Some(u.expected(&question));
+    let mut hspec = hspec;
+    let mut question = question;
+    if r.chance(1, 6) {
+        // a hosts-style override in the non-authoritative root zone for the question name: it must
+        // win over whatever the universe says (C01), also for ANY and after referrals
+        let over = rr(&question.name, a4(250), 5);
+        hspec.push_str(&format!("!i:{}", c::rr(&over)));
+        let mut hz2 = Zone::new(DomainName::root_domain(), None);
+        for (host, addrs) in &u.zones[0].servers {
+            hz2.insert(&DomainName::root_domain(), RecordTypeWithData::NS { nsdname: host.clone() }, 300);
+            for a in addrs {
+                let data = match a {
+                    IpAddr::V4(x) => RecordTypeWithData::A { address: *x },
+                    IpAddr::V6(x) => RecordTypeWithData::AAAA { address: *x },
+                };
+                hz2.insert(host, data, 300);
+            }
+        }
+        hz2.insert(&question.name, a4(250), 5);
+        zones = Zones::new();
+        zones.insert_merge(hz2);
+        question.qtype = QueryType::from(*r.pick(&[255u16, 255, 1, 28]));
+        expect = None;
+    }
+    let expect = expect.unwrap_or_else(|| "-".to_string());
+    let script = if expect == "-" { universe_script(&u, &relevant_questions(&u, &question)) } else { script };
     Scenario {
         mode: Mode::Rec(pm, *r.pick(&[53u16, 5300])),
         zone_specs: vec![hspec],
@@ -711,7 +776,7 @@ pub fn universe_scenario(r: &mut Rng, single_ns: bool, dual: bool) -> Scenario {
         cache_rrs: Vec::new(),
         script,
         question,
-        expect: Some(expect),
+        expect: if expect == "-" { None } else { Some(expect) },
         family: if single_ns { if dual { "universe1-dual" } else { "universe1" } } else { "universeN" },
     }
 }
@@ -773,6 +838,20 @@ pub fn fault_scenario(r: &mut Rng) -> Scenario {
                 if let Reply::Msg { m, .. } = &mut e.reply {
                     let q = e.qname.clone();
                     m.answers = vec![rr(&q, RecordTypeWithData::CNAME { cname: nm("loop.z0.com.") }, 300), rr(&nm("loop.z0.com."), RecordTypeWithData::CNAME { cname: q.clone() }, 300)];
+                    m.authority.clear();
+                }
+            }
+            7 if false => {}
+            8 if r.chance(1, 2) => {
+                // alias loop NOT through the query name: q -> a -> b -> a, plus an unrelated CNAME
+                if let Reply::Msg { m, .. } = &mut e.reply {
+                    let q = e.qname.clone();
+                    m.answers = vec![
+                        rr(&q, RecordTypeWithData::CNAME { cname: nm("la.z0.com.") }, 300),
+                        rr(&nm("la.z0.com."), RecordTypeWithData::CNAME { cname: nm("lb.z0.com.") }, 300),
+                        rr(&nm("lb.z0.com."), RecordTypeWithData::CNAME { cname: nm("la.z0.com.") }, 300),
+                        rr(&nm("other.z0.com."), RecordTypeWithData::CNAME { cname: nm("elsewhere.z0.com.") }, 300),
+                    ];
                     m.authority.clear();
                 }
             }
